@@ -44,15 +44,18 @@ theorem runBarsG_books (cfg : Cfg) (g : GScript) : ∀ (bars : List Int) (row : 
   | [], _, st => (Quiet.silent [] none rfl rfl rfl rfl rfl rfl).books
   | ts :: bars, row, st => Books.andThen (barStepG_books cfg (g.bar row) g.fuel g.tfuel row ts st) (fun st' => runBarsG_books cfg g bars (row + 1) st')
 
-theorem initG_books (cfg : Cfg) (trigs : List Trig) (g : GScript) (ts0 : Int) :
-    Books ⟨(setAllFrom cfg ts0 0 0 cfg.markets).2, trigs, [], [], []⟩ (initG cfg trigs g ts0) := by
+theorem initG_quiet (cfg : Cfg) (trigs : List Trig) (g : GScript) (ts0 : Int) :
+    Quiet ⟨(setAllFrom cfg ts0 0 0 cfg.markets).2, trigs, [], [], []⟩ (initG cfg trigs g ts0) := by
   unfold initG
   have as0 := setAllFrom_at cfg ts0 0 0 cfg.markets
-  refine (Quiet.andThen ?_ (fun st' => runStmts_quiet ts0 .init g.init st')).books
+  refine Quiet.andThen ?_ (fun st' => runStmts_quiet ts0 .init g.init st')
   refine Quiet.silent _ none rfl rfl rfl ?_ ?_ ?_
   · rw [recOf_append, recOf_setAllFrom]; simp [recOf, recordedAct]
   · simp only [List.filterMap_append, fm_nil_of_allAt notifyAct_phase as0 (by decide)]; rfl
   · simp only [List.filterMap_append, fm_nil_of_allAt core_rowOf_phase as0 (by decide)]; rfl
+
+theorem initG_books (cfg : Cfg) (trigs : List Trig) (g : GScript) (ts0 : Int) :
+    Books ⟨(setAllFrom cfg ts0 0 0 cfg.markets).2, trigs, [], [], []⟩ (initG cfg trigs g ts0) := (initG_quiet cfg trigs g ts0).books
 
 /-! ### every call of a bar carries the bar's timestamp -/
 
